@@ -170,8 +170,8 @@ func QuickHeaders() HeaderUniverse {
 		Produces: [][]string{nil, {JSON}, {XML}, {JSON, XML}, {"*/*"}},
 		Ifs:      [][]rm.Cond{nil, {rm.CondTrue}, {rm.CondFalse}, {rm.CondHdr}},
 		NoCT:     [][]string{nil},
-		CTs:      []string{"", JSON, XML, "application/json; charset=utf-8", "text/plain"},
-		Accepts:  []string{"", "*/*", JSON, XML, "text/plain", "application/xml;q=0.5, application/json"},
+		CTs:      []string{"", JSON, XML, "application/json; charset=utf-8", "text/plain", "application/jsonx"},
+		Accepts:  []string{"", "*/*", JSON, XML, "text/plain", "application/xml;q=0.5, application/json", "application/jsonx"},
 		XCs:      []string{"", "1"},
 		Bodies:   []bool{false, true},
 	}
